@@ -291,3 +291,15 @@ def _determinism(repo, ob, failure):
             return {"input": doc[:400], "observed": "%d different outputs in 8 runs; first difference: %s" % (len(outs), " | ".join(d)[:500]),
                     "expected": "identical bytes on every run"}
     return None
+
+
+@generator("panic_free@ElementMap_for_TransformerContext::get_element_bbox")
+def _clip_cycle(repo, ob, failure):
+    docs = ['<svg><clipPath id="c" clip-path="url(#c)"><rect wh="5"/></clipPath><rect wh="9" clip-path="url(#c)"/></svg>',
+            '<svg><clipPath id="a" clip-path="url(#b)"><rect wh="5"/></clipPath><clipPath id="b" clip-path="url(#a)"><rect wh="5"/></clipPath><rect wh="9" clip-path="url(#a)"/></svg>']
+    for doc in docs:
+        r = run_svgdx(repo, doc, timeout=20)
+        if r["timeout"] or r["rc"] not in (0, 1, 2):
+            return {"input": doc, "observed": "exit %s%s: %s" % (r["rc"], " (timeout)" if r["timeout"] else "", r["err"].strip()[-200:]),
+                    "expected": "an error value (circular reference), never a stack overflow"}
+    return None
